@@ -57,6 +57,7 @@ Holders == Parties \cup {"fc", "sink"}
 (*   wd[a]     x/assets withdrawable amount of a as staker of the deposit   *)
 (*             asset; dl[a] its delegation to the fixture operator          *)
 (*             (x/delegation undelegatable share, 1:1 with tokens here)     *)
+(*   avs       number of AVSs registered in x/avs                           *)
 (*   dep       x/assets staking total of the deposit asset (restaking state *)
 (*             reachable through the assets precompile)                     *)
 (***************************************************************************)
@@ -79,7 +80,8 @@ EffPrice(t, bf) == IF t.ty = "dyn" THEN NMin(NAdd(t.tip, bf), t.price) ELSE t.pr
 Fee(t, bf)      == NMul(t.gas, EffPrice(t, bf))
 \* gasLimit.Mul(minGasMultiplier).TruncateInt()
 MinUsed(t)      == NQuo(NMul(t.gas, MULT), PREC)
-Recipient(t)    == IF t.to = "new" THEN "sink" ELSE t.to
+Creation(t)     == t.to \in {"new", "newp"}
+Recipient(t)    == IF Creation(t) THEN "sink" ELSE t.to
 
 R(st, code) == [st |-> st, code |-> code]
 
@@ -150,6 +152,12 @@ AdmitCheck(st, t) ==
 (*         1 (gw frame reverted) in slot 0 ("w") and 2 in slot 1 ("w1")     *)
 (*         when the reverted gw frame reported a successful precompile call *)
 (*   "new" contract creation; init code stores and returns a runtime        *)
+(*   "newp" contract creation whose constructor registers the new contract  *)
+(*         as an AVS through the avs precompile (0x..0901 registerAVS, any  *)
+(*         contract may call it) and only then returns (mode "ok"),         *)
+(*         REVERTs ("rev") or loops until out of gas ("oog"); the init code *)
+(*         reverts by itself when the precompile call fails or returns      *)
+(*         false, so a successful creation implies a registered AVS         *)
 (***************************************************************************)
 Effects(st, t, x) ==
   LET s1 == Move(st, t.s, Recipient(t), t.value)
@@ -175,6 +183,7 @@ Effects(st, t, x) ==
      ELSE IF NEq(x.wflag, 2) THEN deposit(s2)
      \* the reverted inner frame: the EVM journal does not cover keeper writes made by a precompile
      ELSE IF x.inner /\ "DEV_RevertedFrameKeepsPrecompileWrites" \in DEVS THEN deposit(s2) ELSE s2
+  ELSE IF t.to = "newp" THEN [s1 EXCEPT !.avs = @ + 1]
   ELSE s1
 
 (***************************************************************************)
@@ -274,7 +283,7 @@ DeliverBatch(st, ts, xs) ==
             \* management" - SetNonce(sender, msg.Nonce()) before evm.Create, SetNonce(sender, msg.Nonce()+1) after - and
             \* the committed statedb overwrites the sequence the ante handler had already advanced for ALL messages of
             \* the Cosmos tx: later messages of the same sender lose their increment.  (No effect on a one-message tx.)
-            s4 == IF t.to = "new" /\ ~x.vmfail /\ "DEV_BatchCreateResetsNonce" \in DEVS
+            s4 == IF Creation(t) /\ ~x.vmfail /\ "DEV_BatchCreateResetsNonce" \in DEVS
                   THEN [s3 EXCEPT !.nonce[t.s] = t.nonce + 1] ELSE s3
         IN [st |-> s4, gus |-> Append(acc.gus, gasUsed), vmfails |-> Append(acc.vmfails, x.vmfail), total |-> NAdd(acc.total, gasUsed), err |-> FALSE]
       e == FoldLeft(step, [st |-> s1, gus |-> <<>>, vmfails |-> <<>>, total |-> NC(0), err |-> FALSE], [i \in DOMAIN ts |-> i])
@@ -310,11 +319,11 @@ Admissible(st, t) ==
   /\ NGe(NMul(EffPrice(t, st.bf), PREC), MINGP)
   /\ (BLOCKGAS = 0 \/ t.gas <= BLOCKGAS)
 
-SameRestaking(pre, post) == post.dep = pre.dep /\ post.wd = pre.wd /\ post.dl = pre.dl
+SameRestaking(pre, post) == post.dep = pre.dep /\ post.wd = pre.wd /\ post.dl = pre.dl /\ post.avs = pre.avs
 
 Changed(pre, post) ==
   \/ post.nonce # pre.nonce \/ post.bal # pre.bal \/ post.fc # pre.fc \/ post.sink # pre.sink
-  \/ post.stor # pre.stor \/ post.dep # pre.dep \/ post.wd # pre.wd \/ post.dl # pre.dl
+  \/ post.stor # pre.stor \/ post.dep # pre.dep \/ post.wd # pre.wd \/ post.dl # pre.dl \/ post.avs # pre.avs
 
 \* a transaction is included when it was executed (code 0) or left any trace at all
 Included(pre, post, o) == o.code = 0 \/ Changed(pre, post)
